@@ -20,7 +20,8 @@ COQ = dict(imports=["Gen.DialectTables", "Spec.C18"], in_ty="in_C18", out_ty="ou
            corr="corr_C18", decide="check_C18", inclass="inclass_C18",
            model="(fun i : in_C18 => let '(d, c, r) := i in offline_chunks d c r)")
 THEOREMS = ["C18_decider_sound", "C18_main", "C18_grammar", "C18_per_migration", "C18_single_block", "C18_autocommit",
-            "C18_no_markers", "C18_content", "C18_tables_wf", "C18_table", "C18_ignores_connection_state", "C18_override_routes", "C18_cut_short"]
+            "C18_no_markers", "C18_content", "C18_tables_wf", "C18_table", "C18_ignores_connection_state", "C18_override_routes", "C18_cut_short", "C18_well_bracketed",
+            "C18_replay_well_framed", "C18_replay_cut", "C18_replay_equals_online"]
 CASE_TIMEOUT = 30
 
 _TR_ERROR = None
@@ -55,7 +56,8 @@ RULE = ("quick (exhaustive): {sqlite,postgresql,mysql,mariadb,mssql,oracle} x tr
         "EnvironmentContext keyword (alone, or contradicted by the configure() argument) on all dialects + mssql/oracle with the "
         "batch separator option set to '' or a custom string + offline runs CUT SHORT by an exception raised at every position of every "
         "migration of the linear history (between statements, inside the autocommit section, in the on_version_apply callback) on "
-        "all dialects x override x transaction_per_migration x {upgrade, downgrade} + linear3 with 7 body layouts (autocommit first/last/only/empty/"
+        "all dialects x override x transaction_per_migration x {upgrade, downgrade} + --sql start:end ranges with start != base (no "
+        "CREATE TABLE) and end != head/base (no DROP TABLE) for upgrade, downgrade and stamp on all dialects + linear3 with 7 body layouts (autocommit first/last/only/empty/"
         "twice/multi-statement) ; thorough adds seeded random histories (2-7 revisions, merges, several roots), random bodies "
         "and partial ranges. non-trivial = effective transactional DDL and at least one step; distinct by encoded input")
 EXHAUSTIVE = {"quick": True, "thorough": True}
@@ -126,6 +128,17 @@ def _fail_lattice():
                 c = _case(dn, tddl, tpm, cmd, revs, spec, "lin/mid")
                 c["fail"] = fail
                 yield c
+
+
+def _range_lattice():
+    """--sql start:end with start != base: no CREATE TABLE; end != head / base: no DROP TABLE"""
+    for shape, auto in (("lin", "mid"), ("mg", "last")):
+        revs = _history(shape, auto)
+        first, second, last = revs[0]["id"], revs[1]["id"], revs[-1]["id"]
+        specs = [("upgrade", "%s:heads" % first), ("upgrade", "%s:%s" % (first, last)), ("upgrade", "%s:%s" % (second, last)),
+                 ("downgrade", "%s:%s" % (last, first)), ("downgrade", "%s:%s" % (last, second)), ("stamp", "%s:%s" % (first, last))]
+        for (cmd, spec), dn, tddl, tpm in itertools.product(specs, DIALECTS, [None, True, False], [False, True]):
+            yield _case(dn, tddl, tpm, cmd, revs, spec, "%s/%s-range" % (shape, auto))
 
 
 def _sep_lattice():
@@ -208,6 +221,7 @@ def generate(tier, seed):
     yield from _envkw_lattice()
     yield from _sep_lattice()
     yield from _fail_lattice()
+    yield from _range_lattice()
     rnd = random.Random(seed * 7919 + 18)
     for _ in range(600 if tier == "quick" else 20000):
         yield _rand_case(rnd)
@@ -419,8 +433,8 @@ def run_case(h):
         elif _VERSION.match(c) and 0 <= k < len(steps_seen):
             s = steps_seen[k]
             if set(_QUOTED.findall(c)) <= set(s["up"]) | set(s["down"]):
+                chunks.append("RVersion %d %d" % (k, nver[k]))
                 nver[k] += 1
-                chunks.append("RVersion %d" % k)
                 evs.append("V")
                 continue
         elif c.startswith("CREATE TABLE alembic_version "):
